@@ -202,6 +202,8 @@ def main():
                 cfg["syncmode"] = r.choice([1, 2])
             if r.random() < 0.3:
                 cfg["seed"] = r.randrange(1, 1000)     # the seed is a parameter too: a copy must carry it (and the generator)
+            if r.random() < 0.35:
+                cfg["ensureray"] = 1                   # infeasible / unbounded LPs then end with a ray or a Farkas vector, which a copy must carry
             mode = r.choice(["ctor", "assign", "assign-used"])
             point = r.choice(["nosolve", "solved", "solved-mod"])
             mut = r.choice(["params", "lp", "solve", "all"])
